@@ -43,20 +43,19 @@ CHECKS["C10"] = dict(
     category="proof",
     text=("Lean 4 model of the string/bytes/conversion built-ins (substr family, strpos, replace, trim family, upper/lower, "
           "tokenize, strlen, hex, hash, chr, raw, str incl. an exact %.16g, int, Base64) as total functions over byte lists "
-          "with C hazards as outcomes; 38 theorems (BlocV.Proofs.C10): b64dec_b64enc for ALL byte lists (and through evalBuiltin), "
+          "with C hazards as outcomes; 47 theorems (BlocV.Proofs.C10): b64dec_b64enc for ALL byte lists (and through evalBuiltin), "
           "int_str_roundtrip for every Int64 incl. INT64_MIN, substr/subraw (2 and 3 arguments) = the independent Spec.Text.substr "
-          "for all strings and all Int64 positions/counts outside the one recorded overflow point (substr_full_false proves the "
-          "negation there), lsubstr/rsubstr without exclusion, substr_returns_sublist (whatever is returned is the typed null, the "
-          "argument, or a contiguous sublist: never data from outside), null in => typed null out, text_builtins_no_hazard (21 "
-          "built-ins x every argument list outside the decidable knownHazard region = exactly the three open findings; "
-          "hex_hazard_region exact), strpos / replace / upper / lower / trim / strlen / hex / raw / hash / tokenize_join contracts, "
+          "for all strings and ALL Int64 positions/counts (substr_full; the INT64_MIN overflow was repaired), lsubstr/rsubstr,  substr_returns_sublist (whatever is returned is the typed null, the "
+          "argument, or a contiguous sublist: never data from outside), null in => typed null out, text_builtins_no_hazard (23 "
+          "built-ins x every argument list, no excluded region), hex_contract / hex_value (hex(v, n) = Spec.Text.hex for every value "
+          "and pad count), abs_contract, pow_exact / pow_eq_operator, strpos / replace / upper / lower / trim / strlen / hex / raw / hash / tokenize_join contracts, "
           "chr / put / concat code range. Tied to /repo by exhaustive short-string x position-lattice calls "
           "(arguments as variables and as temporaries, argument variables dumped after the call) under ASan+UBSan."),
     design_ref="DESIGN.md §6 C10, §11, notes/NOTES-p10.md",
     note=("Trusted: Lean kernel; correspondence is tested (exhaustive over the stated alphabet/lattice, sampled beyond); "
           "strtod (num/isnum on text) is libc and %.16g printing goes through the kernel-opaque Float: num(str(d)) = d and "
           "isnum <=> num are checked on the implementation only (not theorems); "
-          "recorded hazard regions (decimal positions outside int64, INT64_MIN start) are listed in known_findings.json."),
+          "the hazard regions recorded earlier (decimal positions outside int64, INT64_MIN start, hex pad count) were repaired; no C10 finding is open."),
     technique="Lean 4 proof over a hand model + differential correspondence (exhaustive short strings x lattice)")
 
 CHECKS["C13"] = dict(
@@ -82,18 +81,26 @@ CHECKS["C18"] = dict(
           "encoding of any list of non-zero scalars gives that list, count/at/substr/insert/remove/string agree with the list "
           "functions, utf8_args_total characterises the only out-of-bounds access (at beyond the end: recorded finding); models "
           "are transcriptions of csvparser.cpp / utf8helper.cpp tied by an exhaustive small-alphabet differential run of the "
-          "real classes (harness/modprobe.cpp, ASan+UBSan). The file and sqlite3 halves are NOT claimed by this check "
-          "(OS / SQLite behaviour; see DESIGN.md)."),
-    design_ref="DESIGN.md §6 C18, notes/NOTES-C18.md",
+          "real classes (harness/modprobe.cpp, ASan+UBSan). file and sqlite3 halves: Lean models of plugin_file.cpp (mode parsing, "
+          "fwrite as a walk, the 4096-byte read loop, readln, seeks, every null/closed check) and of plugin_sqlite3.cpp (bind/fetch "
+          "value mapping, statement state machine); file_write_read_roundtrip (all data, all chunkings, all read counts), "
+          "readLoop_eq (= take n), fwriteBytes_eq_writeAt and per-call refinement of a POSIX spec (Spec/FileSpec.lean), "
+          "file_args_total, sqlite_value_roundtrip + proved negations for what SQLite's storage classes do not preserve (boolean, "
+          "NaN, empty bytes, typed null); tied to the REAL .so modules (ASan+UBSan, in-process, one BLOC statement per call) and to "
+          "independent readers (Python reading the file, Python's sqlite3 reading the database) by ~1900 (quick) differential histories."),
+    design_ref="DESIGN.md §6 C18, §11, notes/NOTES-C18.md, notes/NOTES-C18F.md",
     note=("Trusted: Lean kernel; correspondence tested (exhaustive over rows <= 3 fields x <= 3 bytes over {sep, enc, space, LF, CR, a}; "
-          "byte strings <= 3 over a boundary alphabet); charmap tables (upper/lower/normalisation) out of scope; file/sqlite3 not covered."),
+          "byte strings <= 3 over a boundary alphabet); charmap tables (upper/lower/normalisation) out of scope; glibc stdio and SQLite "
+          "are trusted (their behaviour is what the models' fread/fwrite/fseek and storage classes say; tested, not proved); one "
+          "handle per file, regular files, fixed SQL shapes; stat/dir/errmsg unmodelled; whole-sequence refinement and the "
+          "readln/dirname specs are not proved."),
     technique="Lean 4 proof (round trip / refinement to list functions) + exhaustive differential correspondence")
 
 CHECKS["C06"] = dict(
     category="proof",
     text=("Lean 4 interpreter model (BlocV/Model/Interp.lean: statements, the loop combinators forLoop / whileLoop / forallLoop "
           "transcribing FORStatement / WHILEStatement / FORALLStatement::doit, forall iterators as pointers into the traversed "
-          "table with forallExit = finalizeControl, blocks, signals). Theorems (BlocV.Proofs.C06, 41): exec_for_visits — the `for` "
+          "table with forallExit = finalizeControl, blocks, signals). Theorems (BlocV.Proofs.C06, 43): exec_for_visits — the `for` "
           "statement runs its body exactly over Spec.forRange for ALL Int64 first/limit/step and the three directions "
           "(forLoop_visits_up/down: no wrap-around at INT64_MAX/MIN), forRange_closed_form/length, exec_for_terminates, null "
           "first/limit/step => zero iterations, step < 1 => OUT_OF_RANGE before anything runs; exec_forall_var_visits — forall "
@@ -110,8 +117,9 @@ CHECKS["C06"] = dict(
     design_ref="DESIGN.md §6 C06, §11, notes/NOTES-p0608.md",
     note=("Trusted: Lean kernel; the interpreter model evaluates over values (C05 links it to the storage discipline); "
           "correspondence tested. The compile-time refusal of changing a traversed table is C09's/C11's subject; forall over a "
-          "temporary is covered by the correspondence, its statement-level theorem is for a variable source. One known finding "
-          "(assigning a null to a for control variable dereferences null)."),
+          "temporary is covered by the correspondence, its statement-level theorem is for a variable source. The one finding "
+          "(a body nulling the for control variable dereferenced null) was repaired: forLoop_null_iterator / exec_for_null_iterator "
+          "state the NOT_INTEGER outcome."),
     technique="Lean 4 proof over an interpreter model (loop theorems vs Spec.forRange / forallOrder, control-stack balance by mutual induction) + program-level differential correspondence")
 
 CHECKS["C07"] = dict(
@@ -200,16 +208,17 @@ CHECKS["C01"] = dict(
           "evalUn_no_hazard and evalBin_no_hazard — every unary and all 20 binary operators, EVERY pair of values (nulls, typed "
           "nulls, tables, tuples, every Int64, every double), both aliasing flags, never reach a hazard (hypothesis: table values "
           "have level >= 1, shown necessary by evalBin_hazard_witness and preserved by evalBin_ok_tabOk); pure_no_hazard lifts this "
-          "to every expression tree incl. short circuit; evalBuiltin_no_hazard_partial: 18 built-ins for all argument lists; "
-          "evalBuiltin_hazard_witness: the three recorded overflow regions (substr/subraw at INT64_MIN, hex pad count) are exactly "
-          "reproduced; int_of_decimal_no_hazard for all 2^64 bit patterns. Tied to /repo by running EVERY built-in (generated keyword "
+          "to every expression tree incl. short circuit; evalBuiltin_no_hazard: all 23 modelled built-ins for all argument lists "
+          "(substr/subraw: the string length fits int64); evalBuiltin_repaired_witnesses: the former overflow witnesses (substr/"
+          "subraw at INT64_MIN, hex pad count, abs, pow) return values since their repair; int_of_decimal_no_hazard for all 2^64 "
+          "bit patterns. Tied to /repo by running EVERY built-in (generated keyword "
           "list) x arity x operand class (boundary values always) x operand source, every operator and member method, and generated "
           "programs mutated at every token position + byte edits, under ASan+UBSan+float-cast-overflow through Parser::parse, the C "
           "API and the statement-at-a-time path: any outcome other than value / parse error / runtime error is reported."),
     design_ref="DESIGN.md §6 C01, §11, notes/NOTES-p0102.md",
     note=("Trusted: Lean kernel; sanitizers as the oracle for undefined behaviour; for the built-ins and members not covered by "
           "a no-hazard theorem the verdict comes from the exhaustive sanitizer run (testing), with every crash either a listed "
-          "known finding (construct + crash class + witness) or a violation. Stack/heap exhaustion is outside the property's "
+          "known finding (construct + crash class + witness; none is open for C01 after the repair rounds) or a violation. Stack/heap exhaustion is outside the property's "
           "domain (bounded nesting / sizes in the generators). The parser itself is not modelled here (C12/C13 model it): "
           "malformed text is covered by mutation testing only."),
     technique="Lean 4 no-hazard theorems (all operators, 18 built-ins, expression trees) + exhaustive construct x operand-class sanitizer run + token-level text mutation")
@@ -239,8 +248,9 @@ CHECKS["C12"] = dict(
           "variables, literals, parentheses) at every precedence level and for assignment statements (also chained), literal and "
           "integer round trips for all strings the parser can build / all non-negative integers, unparse o norm = unparse and "
           "translate o norm = translate for all node kinds (fixpoint, behaviour preserved); the full property is FALSE on this tree: "
-          "%.16g is not injective and three further regions (wrapped integer literals, fused print items, DO without keyword) are "
-          "witnessed by proved negations and recorded as known findings. Tied to /repo by comparing, for generated programs over "
+          "%.16g is not injective and two further regions (wrapped integer literals, fused print items) are "
+          "witnessed by proved negations and recorded as known findings; DO statements round-trip since the repair of "
+          "DOStatement::unparse (stmt_do_roundtrip, stmt_do_fixpoint). Tied to /repo by comparing, for generated programs over "
           "the full grammar (every operator pair x parenthesis shape, all literal forms, chained statements, nested blocks, typed "
           "functions, exception clauses), Executable::unparse with the model byte for byte, re-parsing the text in a twin context, "
           "running both and comparing results, output, dumps and the second unparse."),
@@ -257,18 +267,20 @@ CHECKS["C14"] = dict(
           "executables, the shared MUTABLE cells enumerated from the source on every run by extract/shared.py (every `mutable` "
           "member / non-const static; a new one breaks all_shared_cells_classified), per-context state = the interpreter state of "
           "Model/Interp.lean; operations compile/start/step/clone/purge/free. Theorems (BlocV.Proofs.C14): clone_copies; footprint "
-          "and reads_footprint (an operation writes only its context + {_level, error record, what buffer} and reads no shared "
+          "and reads_footprint (an operation writes only its context + {_level, error record} and reads no shared "
           "mutable cell); steps_commute; interleaving_eq_sequential for EVERY schedule of any number of contexts; "
           "purge_free_independent; shared_writes_benign (constant cells never written, citing C05.eval_frame; all writers of a "
           "node's _level write the same value provided every exec stack is empty between runs); error_record_is_last_writer "
-          "(negative). Tied to /repo by harness/thrprobe.cpp: scripts of clone/run/purge/free with 2..8 clones on std::threads vs "
+          "(negative); what_buffer_is_thread_local / what_buffer_private / handler_found_under_every_schedule (since the repair of "
+          "Error::what: the buffer is listed by the extractor as per-thread state; losing `thread_local` brings it back into the "
+          "shared list and breaks the obligation); 37 theorems. Tied to /repo by harness/thrprobe.cpp: scripts of clone/run/purge/free with 2..8 clones on std::threads vs "
           "the same script sequentially vs World.apply under a random interleaving, per-context results, outputs (own fd per "
           "clone) and all variables compared; thorough tier adds a ThreadSanitizer build whose every report is classified by its "
           "site pair against the recorded findings."),
     design_ref="DESIGN.md §6 C14, notes/NOTES-C14.md",
-    note=("Full property is FALSE on the tree: data races on Statement::_level, bloc_error, Error::what's static buffer (script-"
-          "visible: a handled user exception can miss its handler), the RNG statics — recorded known findings; two lifetime defects "
-          "found by this check were repaired (137dbae, 4769647). Thread interleavings are sampled, not enumerated. Trusted: Lean "
+    note=("Full property is FALSE on the tree: data races on Statement::_level, the process-wide error record, the RNG statics, "
+          "_type_volatile — recorded known findings; repaired after being found by this check: two lifetime defects (137dbae, "
+          "4769647) and Error::what's shared static buffer (a handled user exception could miss its handler). Thread interleavings are sampled, not enumerated. Trusted: Lean "
           "kernel; extract/shared.py's regex listing; thrprobe; ThreadSanitizer for unlisted races on executed paths."),
     technique="Lean 4 proof (commutation + induction on schedules over an extracted shared-cell footprint) + threaded differential testing under ASan/TSan")
 
@@ -294,15 +306,16 @@ CHECKS["C15"] = {
           "expressions, executables, process-wide error record, per-context epochs). Proved for ALL call sequences of the model: "
           "library_pointer_stable (a pointer handed out at epoch e denotes the same unmodified variable cell in every later state "
           "whose epoch is still e), error_record_contract (a failing call leaves exactly its code in bloc_errno/strerror; "
-          "successful non-parse calls do not touch it; successful parses clear it), accessor_contract (partial: succeeds iff the type "
-          "matches, data NULL iff null; negation proved for bloc_literal/bloc_tabchar on null), api_script_agree (both directions), "
+          "successful non-parse calls do not touch it; successful parses clear it), accessor_contract (all eight accessors: succeeds iff the type "
+          "matches, data NULL iff null — full since the repair of bloc_literal/bloc_tabchar on null values), api_script_agree (both directions), "
           "context_reusable_after_error (rejected text / failing run). Tie to the code: differential run of state-machine call "
           "sequences (<=40 quick, <=200 thorough) through the real C API only, under ASan+UBSan+LSan, every call's result, "
           "out-parameters, re-read library pointers and errno/strerror compared with the model.",
   "note": "PARTIAL. Memory reclamation is NOT modelled: 'no memory remains' is LeakSanitizer's verdict on the generated sequences "
-          "and on every truncation of 7 programs, not a theorem. 11 findings recorded (2 null dereferences, errno 0 on EOF, store "
+          "and on every truncation of 7 programs, not a theorem. 8 findings open (errno 0 on EOF, store "
           "nulls scalar sources, item pointers dangle after store, use-after-free when an executable/clone holding a function outlives "
-          "the declaring context's purge/free, 5 leak sites in error paths). Rejected texts come from a catalog inside the model; the "
+          "the declaring context's purge/free, 4 leak sites in parser error paths); 3 repaired (the two accessor null dereferences, "
+          "the callee-context leak when an argument raises). Rejected texts come from a catalog inside the model; the "
           "parser is not modelled here. bloc_break from a second thread, trace and plugins are outside.",
   "technique": "Lean theorems over a transcribed state machine (case analysis over 38 ops + invariant by induction on sequences) "
                "+ model-based differential testing with sanitizers; leak attribution by allocation call-site signature",
@@ -320,7 +333,7 @@ CHECKS["C16"] = {
 CHECKS["C17"] = {
   "category": "proof",
   "text": "Lean model of the bloc::Complex reference counter, operation by operation (factory, copy/move ctor, destructor, operator=, both swaps) with C-level hazards as outcomes; theorems over ALL operation sequences: refs_eq_live_handles, destroy_at_most_once, destroy_at_zero_only, no_leak_at_quiescence (handle level), no_dangling_counter; store-level operations and a small object language expressed through the handle operations. Tie to the code: every well-formed handle-operation sequence up to length 4/5 on real handles, and random programs (variables, tables, functions, loops, error exits, clones, purge) against the event log of a verification-only module under ASan: constructor/method events and arguments exact, destroy at most once, within [model's earliest release, release of the last context involved], exactly once at quiescence.",
-  "note": "partial: the createEnv path on which an argument raises leaks the callee context (known finding, witnessed); program-level no-leak is a correspondence result, not a theorem; temp-pool slot reuse is bounded, not modelled; two further recorded defects (null dereference after move; use-after-free when a clone outlives its origin).",
+  "note": "the createEnv path on which an argument raises leaked the callee context: repaired, and no_leak_at_quiescence_ctx is now proved for every store-level history (ownership invariant); program-level no-leak of generated BLOC programs is a correspondence result; temp-pool slot reuse is bounded, not modelled; one recorded defect open (null dereference on a moved-from handle, not script-reachable), one repaired earlier (use-after-free when a clone outlives its origin).",
   "technique": "invariant over operation sequences (Lean 4) + bounded-exhaustive and random model-based testing with an instrumented plugin under AddressSanitizer"}
 
 CHECKS["C11"] = dict(
